@@ -5,6 +5,8 @@ mod explore;
 mod faults;
 mod inv;
 mod keys;
+mod mapentry;
+mod mappairs;
 mod mapprobes;
 mod mapsut;
 mod props;
